@@ -44,8 +44,9 @@ def layer_oracle(nodes, edges, arch_def, subj, objs, verb, imp, exc, anything=Fa
 
 
 def gen_case(rng, forest=False):
-    pool = rng.choice((rules.COLLISION_FREE, rules.ADVERSARIAL))
-    nodes = rules.rand_tree(rng, pool, max_nodes=rng.choice([6, 9, 13]))
+    large = rng.random() < 0.15        # beyond hand-written sizes: up to 40 modules, 6 levels, 6 layers, 4 object layers
+    pool = rules.LARGE_POOL if large else rng.choice((rules.COLLISION_FREE, rules.ADVERSARIAL))
+    nodes = rules.rand_tree(rng, pool, max_nodes=rng.choice([25, 40]), max_depth=6) if large else rules.rand_tree(rng, pool, max_nodes=rng.choice([6, 9, 13]))
     if forest:
         # a second top-level tree (as an external library kept in the graph): its root is a listed module without any dot
         nodes = sorted(set(nodes) | set(rules.rand_tree(rng, pool, max_nodes=4, root=rng.choice(["ext", "e", "rx"]))))
@@ -56,13 +57,13 @@ def gen_case(rng, forest=False):
     for n in cand:
         if not any(rules.related(n, m) for m in chosen):
             chosen.append(n)
-    n_layers = rng.randint(2, 4)
+    n_layers = rng.randint(4, 6) if large else rng.randint(2, 4)
     if len(chosen) < n_layers:
         return None
     keep = chosen[:rng.randint(n_layers, len(chosen))]
     if rng.random() < 0.5 and len(keep) > n_layers:
         keep = keep[:-1]          # leave some unrelated module in no layer
-    names = ["A", "B", "C", "D"][:n_layers]
+    names = ["A", "B", "C", "D", "E", "F"][:n_layers]
     parts = {L: [] for L in names}
     for i, m in enumerate(keep):
         parts[names[i] if i < n_layers else rng.choice(names)].append(m)
@@ -80,7 +81,7 @@ def gen_case(rng, forest=False):
         arch_calls.append((L, kind, val))
     subj = rng.choice(names)
     others = [L for L in names if L != subj]
-    k = rng.randint(1, min(2, len(others)))
+    k = rng.randint(1, min(4 if large else 2, len(others)))
     objs = rng.sample(others, k)
     return dict(nodes=nodes, edges=edges, arch_def=arch_def, arch_calls=arch_calls, subj=subj, objs=objs)
 
